@@ -5,10 +5,10 @@
    kind does not apply to the class). *)
 EXTENDS Loc
 
-Classes == {"SI", "CI", "SEQ", "CDS", "TX", "FEAT", "GENE", "VAR", "VCOLL", "COLL", "PARENT"}
+Classes == {"SI", "CI", "SEQ", "CDS", "TX", "FEAT", "GENE", "VAR", "VCOLL", "COLL", "PARENT", "CODON"}
 Kinds == {"start>end", "negative", "beyond-sequence", "length-mismatch", "frames-mismatch", "cds-outside-exons",
           "undirected", "wrong-alphabet", "overlapping", "duplicate", "empty", "mixed-frame-phase", "multi-primary",
-          "half-bounds", "strand-mismatch", "zero-length", "beyond-sequence-not-last"}
+          "half-bounds", "strand-mismatch", "zero-length", "beyond-sequence-not-last", "gap-letter", "too-short", "too-long"}
 (* outcomes: value | documented rejection | anything else is an internal error *)
 InternalExc(o) == IsExc(o) /\ o[2] \notin DocumentedExc
 Pairwise(ss, es) == Len(ss) = Len(es) /\ Len(ss) > 0 /\ \A i \in DOMAIN ss : 0 <= ss[i] /\ ss[i] <= es[i]
@@ -18,7 +18,7 @@ WithinSeq(es, n) == n < 0 \/ \A i \in DOMAIN es : es[i] <= n
    CDS = <<starts, ends, strand, frames, seqlen, mixed>> ; TX = <<estarts, eends, strand, cstarts, cends, frames, seqlen>>
    FEAT = <<starts, ends, strand, seqlen>> ; GENE = <<nTranscripts, nPrimaryFlags, duplicateChild>>
    VAR = <<start, end, altLen, seqlen>> ; VCOLL = <<spans>> ; COLL = <<start|-1, end|-1, nMembers>>
-   PARENT = <<locEnd, seqlen, strandGiven, locStrand>> *)
+   PARENT = <<locEnd, seqlen, strandGiven, locStrand>> ; CODON = <<chars>> (three IUPAC nucleotide letters, any case) *)
 Valid(cls, a) ==
   CASE cls = "SI" -> 0 <= a[1] /\ a[1] <= a[2] /\ (a[4] < 0 \/ a[2] <= a[4])
     [] cls = "CI" -> Pairwise(a[1], a[2]) /\ WithinSeq(a[2], a[4])
@@ -35,6 +35,7 @@ Valid(cls, a) ==
     [] cls = "VCOLL" -> Len(a[1]) >= 1 /\ \A i, j \in DOMAIN a[1] : i < j => (a[1][i][2] <= a[1][j][1] \/ a[1][j][2] <= a[1][i][1])
     [] cls = "COLL" -> (a[1] < 0) = (a[2] < 0)
     [] cls = "PARENT" -> (a[2] < 0 \/ a[1] <= a[2]) /\ (a[3] = "" \/ a[3] = a[4])
+    [] cls = "CODON" -> Len(a[1]) = 3 /\ \A i \in DOMAIN a[1] : a[1][i] \in AllCases(IupacLetters)
 (* corruptions: each yields an INVALID tuple when it applies (checked by TLC in ValidityMC) *)
 Bump(s, i, v) == [s EXCEPT ![i] = v]
 Corrupt(cls, a, kind) ==
@@ -71,5 +72,10 @@ Corrupt(cls, a, kind) ==
     [] cls = "COLL" /\ kind = "half-bounds" -> <<0, -1, a[3]>>
     [] cls = "PARENT" /\ kind = "beyond-sequence" /\ a[2] >= 0 -> <<a[2] + 1, a[2], a[3], a[4]>>
     [] cls = "PARENT" /\ kind = "strand-mismatch" -> <<a[1], a[2], "-", "+">>
+    [] cls = "CODON" /\ kind = "gap-letter" -> <<Bump(a[1], 3, "-")>>
+    [] cls = "CODON" /\ kind = "wrong-alphabet" -> <<Bump(a[1], 1, "X")>>
+    [] cls = "CODON" /\ kind = "too-short" -> <<SubSeq(a[1], 1, 2)>>
+    [] cls = "CODON" /\ kind = "too-long" -> <<Append(a[1], "A")>>
+    [] cls = "CODON" /\ kind = "empty" -> <<<<>>>>
     [] OTHER -> a
 =============================================================================
